@@ -201,8 +201,11 @@ func GenWOp(r *core.Rand, kinds []string) WOp {
 			op.SessBatch = r.Range(1, 2)
 		}
 		if n >= 2 && r.Chance(35) {
-			// several parents reference one shared company / friend record
+			// several parents reference one shared company / friend record (all parents
+			// in one batch: each batch of a batched Create is a pipeline of its own and
+			// upserts the records it references itself)
 			op.Share = true
+			op.SessBatch = 0
 			co := &fam.CompanySpec{ID: 7000 + uint(r.Intn(3)), Name: "shared-co"}
 			fr := fam.UserSpec{ID: 8000 + uint(r.Intn(3)), Name: "shared-friend"}
 			if r.Chance(35) {
